@@ -113,4 +113,19 @@ def run(env: Env) -> Outcome:
     suite.live_runs(env, out, env.budget(20, 400), [monitors.mon_c31], extra_specs=suite.load_corpus("C31"))
     suite.live_runs(env, out, env.budget(300, 6000), [monitors.mon_c31], mutate_spec=with_end)
     _cancel_resume(env, out, env.budget(100, 2000))
+    # a finishing step whose sibling needs a while to unwind from its cancellation, with the deadline inside that window
+    # (fractional times: outside the integral-time runner correspondence, monitors only)
+    rng = random.Random(env.rng.randrange(1 << 30))
+    slow = []
+    for _ in range(env.budget(40, 800)):
+        s_ = rng.choice([1, 2, 3, 5])
+        fin_first = rng.random() < 0.8
+        slow.append({"spec": {"steps": [
+            {"name": "s00", "accepts": [0], "nw": 1, "retry": None, "script": [["send", 5, None, None], ["send", 6, None, None], ["ret", "none"]]},
+            {"name": "s02", "accepts": [5], "nw": 1, "retry": None, "script": [["sleep", s_], ["ret", "stop"]]},
+            {"name": "s04", "accepts": [6], "nw": rng.randint(1, 2), "retry": None,
+             "script": [["on_cancel_sleep", rng.choice([0.125, 0.25, 0.375, 1])], ["sleep", 1000], ["ret", "none"]]}],
+            "externals": [], "timeout": (s_ + rng.choice([0.125, 0.25, 0.4375])) if fin_first else max(s_ - rng.choice([0.5, 1]), 0.5)},
+            "seed": rng.randrange(1 << 30)})
+    suite.live_runs(env, out, 0, [monitors.mon_c31], extra_specs=slow, check_runner=False)
     return out
